@@ -53,6 +53,21 @@ func bdApplyWrite(sb *redact.StringBuilder, o bdOp) {
 		sb.Print(o.P, 7)
 	case "PR":
 		sb.Print(redact.RedactableString(o.P))
+	case "PSV":
+		// the builder (by value) among its own operands, after an unsafe one
+		sb.Print(o.P, *sb)
+	case "PSP":
+		sb.Printf("%v %v", o.P, sb)
+	case "PSN":
+		// ... and nested in another operand
+		sb.Print(o.P, []interface{}{sb})
+	case "PX":
+		// a panic that crosses Print (a Stringer whose panic value panics again while it is printed); the caller recovers
+		// and keeps the builder
+		func() {
+			defer func() { _ = recover() }()
+			sb.Print(o.P, bdEvil{})
+		}()
 	case "FX":
 		// a foreign call: something else in the process prints (and escapes) in between; not a write to this builder
 		_ = redact.Sprint("foreign\ntext \u2039 "+o.P, 1)
@@ -61,6 +76,14 @@ func bdApplyWrite(sb *redact.StringBuilder, o bdOp) {
 		_ = other.RedactableString()
 	}
 }
+
+type bdEvilErr struct{}
+
+func (bdEvilErr) Error() string { panic("again") }
+
+type bdEvil struct{}
+
+func (bdEvil) String() string { panic(bdEvilErr{}) }
 
 // usesRaw: the history hands the builder a pre-redacted operand made by the caller (not a redactable: outside C01 / C03)
 func usesRaw(ops []bdOp) bool {
@@ -118,7 +141,7 @@ func judgeBuilder(rep *lib.Report, k bdCase) {
 			o = bdOp{"S", strings.Repeat("e", n)}
 			bdApplyWrite(&sb, o)
 			since = append(since, o)
-		case "S", "U", "P", "PR":
+		case "S", "U", "P", "PR", "PSV", "PSP", "PSN", "PX":
 			bdApplyWrite(&sb, o)
 			since = append(since, o)
 		case "RST":
@@ -325,6 +348,20 @@ func builderDrive(args []string) {
 				ops = append(ops, bdOp{kind, big}, bdOp{kind, small})
 				twins = append(twins, bdCase{"builder", ops})
 				twins = append(twins, bdCase{"builder", []bdOp{{kind, big + small}, {acc, ""}, {"FX", small}, {kind, "tail" + small}, {"FX", "q"}, {"RS", ""}}})
+			}
+		}
+	}
+	// the builder among its own operands (by value, by pointer, nested) and a panic that crosses Print, after contents
+	// that end with a closing marker / an open envelope / safe text; then more writes
+	for _, pre := range [][]bdOp{nil, {{"U", "a"}}, {{"U", "secret"}, {"S", ""}}, {{"S", "safe "}}, {{"U", "x\n"}}, {{"S", "s"}, {"U", "u"}}} {
+		for _, op := range []string{"PSV", "PSP", "PSN", "PX"} {
+			for _, arg := range []string{"uvw", "", "u\u203a"} {
+				for _, post := range [][]bdOp{nil, {{"U", "t"}}, {{"S", "t"}}, {{op, "w"}}} {
+					ops := append([]bdOp(nil), pre...)
+					ops = append(ops, bdOp{op, arg})
+					ops = append(ops, post...)
+					twins = append(twins, bdCase{"builder", ops})
+				}
 			}
 		}
 	}
